@@ -15,3 +15,8 @@ def fill(claim, na):
       'Decision procedure over an exhaustively enumerated finite set: every (year, form class, allowed instance) constructor is statically evaluated and every (threshold table, filing status) pair, every input/line name and every class attribute is checked against rules R17.1-R17.6. Exhaustive for the shipped catalogue; no sampling.',
       'Trusted: the static constructor evaluator sa/interp.py (fails closed on anything it does not model). Not decided: the exact text layout printed by list-forms/list-form-inputs (only the names/metadata it prints).',
       'static constructor evaluation (AST partial evaluator) + exhaustive table rules', 'DESIGN.md §3 C17')
+
+    c('C10',
+      'Decision procedure over all syntactic paths: every line definition, PDF value function and needs_filing method of all three years (about 2 550 definitions, 4 900 paths) is abstractly interpreted with helpers and the core methods it calls inlined from source; every input/line/form/threshold/enum/attribute/callee reference on any path is resolved against the statically built same-year catalogue (rules R10.1-R10.9, incl. unbounded indices into fixed name blocks and s.form() availability). Exhaustive over the shipped definitions; independent of which inputs make a path execute.',
+      'Trusted: sa/interp.py and sa/lineabs.py (fail closed: unmodelled constructs are listed as undecided or raise an analysis error; floors on the number of definitions, paths, reads and call sites). Assumes integer inputs used to build names are >= 0. Forms in sa/data/absent_forms.json (1040_s2, 1099-oid) are accepted as deliberately absent.',
+      'abstract interpretation of line definitions (path enumeration, inlined helpers) + catalogue resolution', 'DESIGN.md §3 C10')
